@@ -1,7 +1,8 @@
 """C19 — optional bulk paths (serde, rayon) match sequential insertion and never panic.
 All documents of <= 4 entries over 2 keys x 2 values with repetitions (plus malformed-type raw
 documents), all item multisets of <= 5 over 3 keys for the parallel paths with pool sizes 1, 2, 4,
-round trips of all contents; outcomes validated by TLC against Trace_Bulk. A panic or crash of
+round trips of all contents, the same documents through serde_json::Value (exact size hints) and
+collections of zero-sized elements (HashSet<()>, HashMap<(), ()>); outcomes validated by TLC against Trace_Bulk. A panic or crash of
 the crate is data (outcome "panic")."""
 import itertools
 import json
@@ -42,6 +43,18 @@ def make_jobs(tier, seed):
     for d in RAW_DOCS:
         add("serde_map", [], doc=d)
         add("serde_set", [], doc=d)
+        add("value_map", [], doc=d)
+        add("value_set", [], doc=d)
+        add("serde_zset", [], doc=d)
+        add("serde_zmap", [], doc=d)
+    # the same small documents through serde_json::Value (exact size hints), and collections of zero-sized elements
+    for ln in range(0, 4):
+        for es in itertools.product(alphabet, repeat=ln):
+            add("value_map", [list(e) for e in es])
+            add("value_set", [list(e) for e in es])
+    for ln in range(0, 4):
+        add("serde_zset", [[0, 0]] * ln)
+    add("serde_zmap", [])
     # item multisets of <= 5 over 3 keys for the parallel paths
     items = [[k, v] for k in (1, 2, 3) for v in (10, 20)]
     maxlen = 4 if tier == "quick" else 5
